@@ -1,5 +1,5 @@
 (* Properties/C16.v — !append / !extend / !prev move and grow existing content without loss. *)
-From AY Require Import Model.Merge Proofs.Ops Proofs.NodeInd Spec.Update Proofs.MergePlain Proofs.MergeNotNew Proofs.AppendE2E.
+From AY Require Import Model.Merge Proofs.Ops Proofs.NodeInd Spec.Update Proofs.MergePlain Proofs.MergeNotNew Proofs.MergeGen Proofs.AppendE2E Proofs.PrevE2E.
 
 (* p: !append L — for every older tree and every target reached by any path: the operator hands over the previous list
    (the very node found at p) followed by the elements of L, in order, content unchanged, and detaches it from the older tree *)
@@ -80,6 +80,34 @@ Example C16_end_to_end_example :
     Some (PD [(KS 1, PD [(KS 5, PS (SInt 9)); (KS 2, PL [PS (SInt 1); PS (SInt 2); PS (SInt 3)])]); (KS 3, PS (SInt 7))]) /\
   option_map erase (match merge2 [] base (wrap ws (Comp CAppend F0 SNone [(KI 0, L 3)])) with Ok n => Some n | _ => None end) =
     app_at (erase base) (wkeys ws) [PS (SInt 3)].
+Proof. vm_compute. repeat split; try reflexivity. eexists. reflexivity. Qed.
+
+(* q: !prev p, end to end: for every tag-free config (any nesting, unique keys) that has a node t at p (reached through mappings) and
+   every document {q: !prev p} (any safety marks / metadata on the document) whose key q does not exist once p is gone: the whole of
+   root.merge(doc) succeeds; the result is the config without p ([prem]) with the ENTIRE previous subtree of p appended under q *)
+Theorem C16_prev_end_to_end : forall e fd xd fl qq z tp root root' t kv',
+  NX fd -> f_idel fd = None ->
+  plookup e z = Some tp -> Old root -> puk (erase root) -> dpath root tp ->
+  remove_node root tp = Some (Some (root', t)) ->
+  prem (erase root) tp = PD kv' -> aget qq kv' = None ->
+  exists n, merge2 e root (Comp CDict fd xd [(qq, Leaf LPrev fl (SStr z))]) = Ok n /\
+            erase n = PD (kv' ++ [(qq, erase t)]) /\ pat (erase root) tp = Some (erase t).
+Proof. exact prev_end_to_end. Qed.
+Print Assumptions C16_prev_end_to_end.
+
+(* ... and removing p leaves every path that leaves the spine of p untouched *)
+Theorem C16_prev_every_other_path_kept : forall q d q', puk d -> diverge q q' -> pat (prem d q) q' = pat d q'.
+Proof. exact prem_frame. Qed.
+Print Assumptions C16_prev_every_other_path_kept.
+
+Example C16_prev_end_to_end_example :
+  let L v := Leaf LScalar F0 (SInt v) in
+  let sub := Comp CDict F0 SNone [(KS 2, Comp CList F0 SNone [(KI 0, L 1)]); (KS 5, L 9)] in
+  let base := Comp CDict F0 SNone [(KS 1, Comp CDict F0 SNone [(KS 6, sub); (KS 7, L 8)]); (KS 3, L 7)] in
+  (exists root', remove_node base [KS 1; KS 6] = Some (Some (root', sub))) /\ dpath base [KS 1; KS 6] /\
+  prem (erase base) [KS 1; KS 6] = PD [(KS 1, PD [(KS 7, PS (SInt 8))]); (KS 3, PS (SInt 7))] /\
+  option_map erase (match merge2 [(9, [KS 1; KS 6])] base (Comp CDict F0 SNone [(KS 4, Leaf LPrev F0 (SStr 9))]) with Ok n => Some n | _ => None end) =
+    Some (PD [(KS 1, PD [(KS 7, PS (SInt 8))]); (KS 3, PS (SInt 7)); (KS 4, erase sub)]).
 Proof. vm_compute. repeat split; try reflexivity. eexists. reflexivity. Qed.
 
 Example C16_example :
